@@ -24,3 +24,9 @@ func (r *Receiver) VerifCorrupt() []string {
 	}
 	return out
 }
+
+// VerifTokensHeld returns how many download and decompress tokens are held.
+func (r *Receiver) VerifTokensHeld() (download, decompress int) {
+	return r.downloadSnapshotLimit.VerifLimit() - r.downloadSnapshotLimit.VerifFree(),
+		r.decompressedSnapshotLimit.VerifLimit() - r.decompressedSnapshotLimit.VerifFree()
+}
